@@ -224,6 +224,21 @@ func extractRow(fn *ssa.Function, send bool) *codecRow {
 					}
 				}
 			case *ssa.Call:
+				// the guard written once as a method of the connection (NeedSpace(k)): the same comparison
+				// with the amount as a parameter, the refill on its true branch, the error handed back
+				if send && len(t.Call.Args) == 2 && t.Call.Args[0] == ssa.Value(fn.Params[0]) && isSpaceHelper(t.Call.StaticCallee(), pos, limit, refill) {
+					k := linOf(t.Call.Args[1])
+					switch {
+					case !k.ok || k.base != "":
+						bad("the space asked for is not a constant")
+					case !errNonNilReturns(t):
+						bad("the error of the space guard is not returned")
+					case guardBlock != nil:
+						bad("more than one space guard")
+					default:
+						guardBlock, row.guard = b, k.k
+					}
+				}
 				// encoding/binary fixed-width helpers on the connection buffer
 				if f := t.Call.StaticCallee(); f != nil && f.Pkg != nil && f.Pkg.Pkg.Path() == "encoding/binary" {
 					name := f.Name()
@@ -352,6 +367,55 @@ func extractRow(fn *ssa.Function, send bool) *codecRow {
 		}
 	}
 	return row
+}
+
+// isSpaceHelper: a method (c *Conn) H(n int) error whose body is `if c.pos+n > limit { return c.refill() }
+// return nil`: one test, the refill on its true branch, no store of its own.
+func isSpaceHelper(h *ssa.Function, pos, limit, refill string) bool {
+	if h == nil || h.Blocks == nil || len(h.Params) != 2 || h.Signature.Results().Len() != 1 {
+		return false
+	}
+	tests := 0
+	for _, b := range h.Blocks {
+		for _, ins := range b.Instrs {
+			switch t := ins.(type) {
+			case *ssa.Store, *ssa.Send, *ssa.Go, *ssa.Defer:
+				return false
+			case *ssa.If:
+				tests++
+				big, small, strict, ok := ordCmpSSA(t.Cond)
+				if !ok || !strict {
+					return false
+				}
+				sum, isSum := big.(*ssa.BinOp)
+				if !isSum || sum.Op != token.ADD || linOf(small).String() != limit {
+					return false
+				}
+				x, y := sum.X, sum.Y
+				if y != ssa.Value(h.Params[1]) {
+					x, y = y, x
+				}
+				if l := linOf(x); y != ssa.Value(h.Params[1]) || !l.ok || l.base != pos || l.k != 0 {
+					return false
+				}
+				found := false
+				for _, i2 := range b.Succs[0].Instrs {
+					if call, ok := i2.(*ssa.Call); ok && call.Call.StaticCallee() != nil && call.Call.StaticCallee().Name() == refill && len(call.Call.Args) > 0 && call.Call.Args[0] == ssa.Value(h.Params[0]) {
+						// its error is what the helper returns
+						if ret, ok := b.Succs[0].Instrs[len(b.Succs[0].Instrs)-1].(*ssa.Return); ok && load.Results(ret)[0] == ssa.Value(call) {
+							found = true
+						} else if errNonNilReturns(call) {
+							found = true
+						}
+					}
+				}
+				if !found {
+					return false
+				}
+			}
+		}
+	}
+	return tests == 1
 }
 
 // sendWeight: the stored byte is byte((uint32(val) >> s) & 0xff) of a parameter; returns s.
@@ -546,8 +610,60 @@ func mustPass(start *ssa.BasicBlock, startIdx int, want func(ssa.Instruction) bo
 	return walk(start, startIdx)
 }
 
-func c11Flush(p *load.Program, run *report.Run) {
+// flushImpl: the function that does the work of Flush.  Flush itself, or — when Flush only wraps it (takes a
+// lock, tests a flag) — the method of the same receiver whose result Flush returns: every return of Flush
+// hands back that call's value or an error of its own.
+func flushImpl(p *load.Program) (*ssa.Function, error) {
 	fn, err := p.Method("p2p", "Conn", "Flush")
+	if err != nil {
+		return nil, err
+	}
+	hasSend := func(f *ssa.Function) bool {
+		for _, b := range f.Blocks {
+			for _, ins := range b.Instrs {
+				if snd, ok := ins.(*ssa.Send); ok && recvField(snd.Chan) == "toWriter" {
+					return true
+				}
+			}
+		}
+		return false
+	}
+	if hasSend(fn) {
+		return fn, nil
+	}
+	var inner *ssa.Call
+	for _, b := range fn.Blocks {
+		for _, ins := range b.Instrs {
+			if c, ok := ins.(*ssa.Call); ok && c.Call.StaticCallee() != nil && c.Call.StaticCallee().Blocks != nil && len(c.Call.Args) == 1 && c.Call.Args[0] == ssa.Value(fn.Params[0]) && hasSend(c.Call.StaticCallee()) {
+				if inner != nil {
+					return fn, nil
+				}
+				inner = c
+			}
+		}
+	}
+	if inner == nil {
+		return fn, nil
+	}
+	for _, b := range fn.Blocks {
+		if ret, ok := b.Instrs[len(b.Instrs)-1].(*ssa.Return); ok {
+			r := load.Results(ret)
+			if len(r) != 1 {
+				return fn, nil
+			}
+			if r[0] == ssa.Value(inner) {
+				continue
+			}
+			if k, isConst := r[0].(*ssa.Const); isConst && k.IsNil() {
+				return fn, nil // a success of its own, without the work
+			}
+		}
+	}
+	return inner.Call.StaticCallee(), nil
+}
+
+func c11Flush(p *load.Program, run *report.Run) {
+	fn, err := flushImpl(p)
 	if err != nil {
 		run.Undecided("flush-post", "p2p.Conn.Flush", "", err.Error())
 		return
@@ -692,13 +808,18 @@ func c11Close(p *load.Program, run *report.Run) {
 		return
 	}
 	roles := map[string]map[string]bool{}
+	flushFn, _ := flushImpl(p)
 	var handoffs []*ssa.Send
 	add := func(ch, op string, fn *ssa.Function) {
 		k := ch + "/" + op
 		if roles[k] == nil {
 			roles[k] = map[string]bool{}
 		}
-		roles[k][fn.Name()] = true
+		name := fn.Name()
+		if flushFn != nil && fn == flushFn {
+			name = "Flush"
+		}
+		roles[k][name] = true
 	}
 	chanField := func(v ssa.Value) string {
 		if f, ok := fieldLoad(v); ok && (f == "toWriter" || f == "fromWriter") {
@@ -824,7 +945,7 @@ func c11Close(p *load.Program, run *report.Run) {
 		for _, ins := range b.Instrs {
 			switch t := ins.(type) {
 			case *ssa.Call:
-				if c := t.Call.StaticCallee(); c != nil && c.Name() == "Flush" {
+				if c := t.Call.StaticCallee(); c != nil && (c.Name() == "Flush" || flushFn != nil && c == flushFn) && c.Signature.Recv() != nil {
 					steps[0] = t
 				}
 				if bi, ok := t.Call.Value.(*ssa.Builtin); ok && bi.Name() == "close" && chanField(t.Call.Args[0]) == "toWriter" {
